@@ -61,6 +61,9 @@ pub enum K {
     Exit,
     Join,
     Noop,
+    NewTask,
+    PollTask,
+    DropTask,
 }
 
 #[derive(Clone)]
@@ -88,6 +91,7 @@ pub struct Profile {
     /// reporter installed only after some operations
     pub late_reporter_pct: u64,
     pub noop_pct: u64,
+    pub task_wraps: &'static [Wrap],
 }
 
 pub const EPS_NS: u64 = 30_000;
@@ -133,6 +137,7 @@ pub fn base_profile(prop: &'static str) -> Profile {
         live_tail: true,
         late_reporter_pct: 0,
         noop_pct: 0,
+        task_wraps: &[Wrap::InSpan, Wrap::EnterOnPoll, Wrap::InSpanEnterOnPoll],
     }
 }
 
@@ -314,6 +319,23 @@ const W_LAZY: &[(K, u64)] = &[
     (K::Cycle, 2),
 ];
 
+const W_ASYNC: &[(K, u64)] = &[
+    (K::Root, 9),
+    (K::Child, 8),
+    (K::NewTask, 10),
+    (K::PollTask, 30),
+    (K::DropTask, 4),
+    (K::Finish, 7),
+    (K::SetLocalParent, 4),
+    (K::LocalEnter, 4),
+    (K::Pop, 10),
+    (K::CtxCurrent, 8),
+    (K::Cycle, 6),
+    (K::Flush, 1),
+    (K::Exit, 1),
+    (K::Join, 1),
+];
+
 const W_SETS: &[(K, u64)] = &[
     (K::Root, 8),
     (K::Child, 6),
@@ -443,6 +465,31 @@ pub fn profile(prop: &str) -> Profile {
             stall_pct: 0,
             ..b
         },
+        "C13" => Profile {
+            prop: "C13",
+            callers: (0, 3),
+            cancelable_pct: 50,
+            weights: W_ASYNC,
+            atomic_pct: 50,
+            props_pct: 30,
+            live_tail: false,
+            stall_pct: 0,
+            warm_pct: 70,
+            ..b
+        },
+        "C14" => Profile {
+            prop: "C14",
+            callers: (0, 3),
+            cancelable_pct: 50,
+            weights: W_ASYNC,
+            atomic_pct: 50,
+            props_pct: 30,
+            live_tail: false,
+            stall_pct: 0,
+            warm_pct: 70,
+            task_wraps: &[Wrap::Stream, Wrap::Sink],
+            ..b
+        },
         "C17" => Profile {
             prop: "C17",
             callers: (0, 2),
@@ -513,6 +560,90 @@ impl<'a> Gen<'a> {
                 false
             }
         }
+    }
+
+    fn push_inner(&mut self, t: u8, op: Op, inner: Vec<Op>) -> bool {
+        let rec = OpRec { t, op, inner };
+        let idx = self.ops.len();
+        let snapshot = self.model.clone();
+        match self.model.apply(idx, &rec) {
+            Ok(()) => {
+                self.ops.push(rec);
+                true
+            }
+            Err(e) => {
+                self.model = snapshot;
+                if std::env::var("DST_GEN_DEBUG").is_ok() {
+                    eprintln!("generator proposed invalid op {:?}: {}", rec, e);
+                }
+                false
+            }
+        }
+    }
+
+    fn tasks(&self, live_only: bool) -> Vec<Slot> {
+        self.model
+            .slots
+            .iter()
+            .enumerate()
+            .filter_map(|(i, s)| match s {
+                SlotM::Task(tk) if !live_only || !tk.done => Some(i as Slot),
+                _ => None,
+            })
+            .collect()
+    }
+
+    fn gen_body(&mut self) -> Vec<Op> {
+        let mut body: Vec<Op> = vec![];
+        let n = self.rng.below(4);
+        for _ in 0..n {
+            if body.len() > 9 {
+                break;
+            }
+            match self.rng.below(8) {
+                0 => {
+                    let props = self.nprops();
+                    body.push(Op::LocalEnter { props });
+                    body.push(Op::Pop { into: None });
+                }
+                1 => {
+                    body.push(Op::LocalEnter { props: 0 });
+                    let n = self.nprops();
+                    body.push(Op::LocalAddEvent { n });
+                    body.push(Op::Pop { into: None });
+                }
+                2 => {
+                    let n = self.nprops();
+                    body.push(Op::LocalAddEvent { n });
+                }
+                3 => {
+                    let n = 1 + self.rng.below(2) as u8;
+                    body.push(Op::LocalAddProps { n });
+                }
+                4 => {
+                    let ctx = self.new_slot();
+                    body.push(Op::CtxCurrent { ctx });
+                }
+                5 => {
+                    let slot = self.new_slot();
+                    body.push(Op::ChildLocal { slot, props: 0 });
+                    body.push(Op::Finish { slot });
+                }
+                6 => {
+                    body.push(Op::LocalEnter { props: 0 });
+                    body.push(Op::LocalEnter { props: 0 });
+                    body.push(Op::Pop { into: None });
+                    body.push(Op::Pop { into: None });
+                }
+                _ => {
+                    body.push(Op::LocalEnter { props: 0 });
+                    let ctx = self.new_slot();
+                    body.push(Op::CtxCurrent { ctx });
+                    body.push(Op::Pop { into: None });
+                }
+            }
+        }
+        body
     }
 
     fn new_slot(&mut self) -> Slot {
@@ -786,6 +917,62 @@ impl<'a> Gen<'a> {
                     return false;
                 }
                 self.push(t, Op::ThreadEnd)
+            }
+            K::NewTask => {
+                let wrap = self.rng.pick(self.p.task_wraps).clone();
+                let span = if matches!(wrap, Wrap::EnterOnPoll) {
+                    None
+                } else {
+                    let live = self.live_spans();
+                    if live.is_empty() {
+                        return false;
+                    }
+                    let roots: Vec<Slot> = live
+                        .iter()
+                        .copied()
+                        .filter(|s| matches!(self.model.slot_ref(*s), SlotM::Span(sp) if sp.root_of.is_some()))
+                        .collect();
+                    Some(if !roots.is_empty() && self.rng.pct(45) {
+                        *self.rng.pick(&roots)
+                    } else {
+                        *self.rng.pick(&live)
+                    })
+                };
+                let task = self.new_slot();
+                self.push(t, Op::NewTask { task, wrap, span })
+            }
+            K::PollTask => {
+                let ts = self.tasks(true);
+                if ts.is_empty() {
+                    return false;
+                }
+                let task = *self.rng.pick(&ts);
+                let wrap = match self.model.slot_ref(task) {
+                    SlotM::Task(tk) => tk.wrap.clone(),
+                    _ => return false,
+                };
+                let kind = match wrap {
+                    Wrap::Stream => {
+                        if self.rng.pct(50) {
+                            PollKind::PollNext
+                        } else {
+                            PollKind::PollNextItem
+                        }
+                    }
+                    Wrap::Sink => *self.rng.pick(&[PollKind::PollReady, PollKind::StartSend, PollKind::PollFlush, PollKind::PollClose, PollKind::PollClose]),
+                    _ => PollKind::Poll,
+                };
+                let ready = self.rng.pct(30);
+                let body = self.gen_body();
+                self.push_inner(t, Op::Poll { task, kind, ready }, body)
+            }
+            K::DropTask => {
+                let ts = self.tasks(false);
+                if ts.is_empty() {
+                    return false;
+                }
+                let task = *self.rng.pick(&ts);
+                self.push(t, Op::DropTask { task })
             }
             K::Join => {
                 let c: Vec<u8> = self
